@@ -26,15 +26,16 @@ import (
 
 // Inst is one running instance.
 type Inst struct {
-	URL    string
-	Bus    *nats.Bus
-	Nc     *nats.Conn // driver connection
-	StNc   *nats.Conn // store connection
-	Store  *store.Store
-	RootID string
-	Dir    string
-	File   string
-	done   chan error
+	LeftSubscribed []string
+	URL            string
+	Bus            *nats.Bus
+	Nc             *nats.Conn // driver connection
+	StNc           *nats.Conn // store connection
+	Store          *store.Store
+	RootID         string
+	Dir            string
+	File           string
+	done           chan error
 }
 
 var (
@@ -364,9 +365,17 @@ func ReadRootID(file string) (string, error) {
 	return k, err
 }
 
+// LeftSubscribed is set by Stop2: subscriptions of the store's own connection that were still registered on the
+// bus when Store.Run had returned (a stopped store must not keep answering requests).
 // Stop2 completes a shutdown after Store.Stop was already called by the harness.
 func (i *Inst) Stop2() {
 	<-i.done
+	prefix := fmt.Sprintf("c%d:", i.StNc.ID())
+	for _, sub := range i.Bus.Subscriptions() {
+		if strings.HasPrefix(sub, prefix) {
+			i.LeftSubscribed = append(i.LeftSubscribed, strings.TrimPrefix(sub, prefix))
+		}
+	}
 	i.Nc.Close()
 	i.StNc.Close()
 	nats.RemoveBus(i.URL)
